@@ -236,7 +236,13 @@ Print Assumptions c01_pluck_sound.
 
 (* Real pipelines carry the sorts that sort inference re-emits in front of every take and at the end ([Sort k; Take; Sort k]).
    A Sort equal to the one in effect does nothing (`c01_drop_resorts_run`), so the hypotheses are asked of the pipeline without
-   them: this is the form judged on every logged call (`SelectPluck.theorem_applies`, linked by `c01_kinds_theta_spec`). *)
+   them: this is the form judged on every logged call (`SelectPluck.theorem_applies`, linked by `c01_kinds_theta_spec`).
+   Reading of `same`: the theorem asks that sort keys it identifies ARE the same comparator.  The check identifies two logged
+   sort keys when their columns are copies of one another -- equal after Model/Sorts.v `canon_key`, which follows the redirects
+   of the relation instances (the same column behind a sub-query boundary) and Computes that are a bare column reference
+   (`derive {x = id}`), read from the context the infer-sorts hook logs.  Such columns hold the same value in every row, so the
+   keys order the rows alike (alias_last_sorting re-targets the final ORDER BY to such an alias: `ORDER BY c, x240` behind takes
+   that were sorted by `{c, id}`).  Nothing else is identified. *)
 Theorem c01_drop_resorts_run : forall (row : Type) (eqb : row -> row -> bool), (forall x y, eqb x y = true <-> x = y) ->
   forall (same : Theta2.cmp row -> Theta2.cmp row -> bool), (forall a b, same a b = true -> a = b) ->
   forall (p : list (SelectPluck.pt (row -> bool) (Theta2.cmp row) (Theta2.agg row) Theta2.range unit)) cur l,
